@@ -309,12 +309,9 @@ def schedrun_tie(rep, bdir, gdir, scenario, n, shards, clause_prefixes=None):
         rc, out = run([exe, scenario, "gen", "-seed", str(rep.seed), "-tier", rep.tier, "-n", str(n), "-shard", str(sh), "-out", js] + exh, timeout=1800)
         if rc != 0:
             return (js, None, "schedrun gen failed: " + out[-2000:])
-        rc, out = run([exe, scenario, "emit", "-in", js, "-out", vf], timeout=600)
-        if rc != 0:
-            return (js, None, "schedrun emit failed: " + out[-2000:])
-        ok, ids, text = coq_eval_cases(vf)
+        ok, ids, text = emit_and_eval(exe, scenario, js)
         if not ok:
-            return (js, None, "coqc failed on generated traces: " + text[-2000:])
+            return (js, None, "emit / coqc failed on generated traces: " + str(text)[-2000:])
         return (js, ids, text)
 
     with ThreadPoolExecutor(max_workers=min(shards, 8)) as ex:
@@ -361,9 +358,49 @@ def gen_dir(pid, tier):
     return d
 
 
+CHUNK = 2000   # cases per generated .v file: evaluation time per case grows with the size of the list literal
+
+
+def emit_and_eval(exe, name, js):
+    """Emit the cases of a harness file as Coq (in chunks of CHUNK cases) and evaluate every chunk.
+    Returns (ok, mismatching ids, text) like coq_eval_cases."""
+    f = json.load(open(js))
+    cases = f["cases"]
+    if len(cases) <= CHUNK:
+        vf = js[:-5] + ".v"
+        rc, out = run([exe, name, "emit", "-in", js, "-out", vf], timeout=600)
+        if rc != 0:
+            return False, None, "harness emit failed: " + out[-2000:]
+        return coq_eval_cases(vf)
+    parts = []
+    for k in range(0, len(cases), CHUNK):
+        pj = "%s.part%d.json" % (js[:-5], k // CHUNK)
+        g = dict(f)
+        g["cases"] = cases[k:k + CHUNK]
+        json.dump(g, open(pj, "w"))
+        parts.append(pj)
+
+    def one(pj):
+        vf = pj[:-5].replace(".", "_") + ".v"
+        rc, out = run([exe, name, "emit", "-in", pj, "-out", vf], timeout=600)
+        if rc != 0:
+            return False, None, "harness emit failed: " + out[-2000:]
+        return coq_eval_cases(vf)
+    with ThreadPoolExecutor(max_workers=4) as ex:
+        res = list(ex.map(one, parts))
+    ids, texts = [], []
+    for ok, i, t in res:
+        if not ok:
+            return False, None, t
+        ids += i
+        if i:
+            texts.append(t)
+    return True, ids, "\n".join(texts) if texts else (res[0][2] if res else "")
+
+
 def coq_eval_cases(vfile, timeout=3000):
     """Compile a generated cases file; return (ok, mismatching ids, raw text)."""
-    rc, out = run(["coqc", "-Q", ".", "CV", "-w", "-notation-overridden", os.path.relpath(vfile, COQ)], cwd=COQ, timeout=timeout)
+    rc, out = run(["coqc", "-noglob", "-Q", ".", "CV", "-w", "-notation-overridden,-abstract-large-number", os.path.relpath(vfile, COQ)], cwd=COQ, timeout=timeout)
     if rc != 0:
         return False, None, out
     m = re.search(r"result\s*=\s*(.*?)\n\s*:\s", out, re.S)
@@ -389,12 +426,9 @@ def seqdiff_tie(rep, bdir, gdir, family, n, shards, label=None, extra_args=()):
         rc, out = run([exe, family, "gen", "-seed", str(rep.seed), "-tier", rep.tier, "-n", str(n), "-shard", str(sh), "-out", js] + list(extra_args), timeout=1800)
         if rc != 0:
             return (js, None, "harness gen failed: " + out[-2000:])
-        rc, out = run([exe, family, "emit", "-in", js, "-out", vf], timeout=600)
-        if rc != 0:
-            return (js, None, "harness emit failed: " + out[-2000:])
-        ok, ids, text = coq_eval_cases(vf)
+        ok, ids, text = emit_and_eval(exe, family, js)
         if not ok:
-            return (js, None, "coqc failed on generated cases: " + text[-2000:])
+            return (js, None, "emit / coqc failed on generated cases: " + str(text)[-2000:])
         return (js, ids, text)
 
     with ThreadPoolExecutor(max_workers=min(shards, 8)) as ex:
